@@ -155,6 +155,7 @@ def cond_text(fn, cond, truth, deep=False):
 
 
 _CONJ_MEMO = {}
+RS_COND_HITS = None    # set() when tools/cond_coverage.py --rust wants to know which branch conditions a text gate matched
 
 
 def conj_summary(h):
@@ -260,6 +261,8 @@ class TextGate(Monitor):
             return m
         for needles, want in self.alts:
             if t == want and all(n in txt for n in needles):
+                if RS_COND_HITS is not None:
+                    RS_COND_HITS.add((self.fn.name, bid))
                 return 1
         if t and truth is not None:
             # a crate-local helper that is a plain conjunction: its conjuncts hold on the true edge
